@@ -85,7 +85,7 @@ Print Assumptions unpackify_truncates.
 Theorem pack_unpack_too_small : forall fuel ws vs b boolean s reverse, bytes_ok b = true -> 8 * s < py_sum ws ->
   packify fuel ws vs (Some s) reverse = Err ValueError /\
   unpackify fuel ws b boolean (Some s) reverse = Err ValueError.
-Proof. intros. split; [exact (packify_too_small_l _ _ _ _ _ H0) | exact (unpackify_too_small_l _ _ _ _ _ _ H H0)]. Qed.
+Proof. exact pack_unpack_too_small_l. Qed.
 Print Assumptions pack_unpack_too_small.
 
 (* PACKING INTO A BUFFER: returns [size]; the buffer (zero-extended to offset+size if short) keeps
@@ -134,6 +134,13 @@ Theorem hexify_unhexify : forall k h, length h = (2 * k)%nat -> forallb is_lower
   exists b, unhexify h = Ok b /\ hexify b = Ok h /\ unhexize h = Ok b /\ hexize b = Ok h.
 Proof. exact hexify_unhexify_l. Qed.
 Print Assumptions hexify_unhexify.
+
+(* unhexify / unhexize on ARBITRARY text: non-hex characters are dropped, an odd number of digits is
+   left-padded with '0', then every two digits (upper or lower case) give one byte; never an error *)
+Theorem unhexify_any_text : forall h,
+  unhexify h = Ok (decode_pairs (clean_hex h)) /\ unhexize h = Ok (decode_pairs (clean_hex h)).
+Proof. exact unhex_general_l. Qed.
+Print Assumptions unhexify_any_text.
 
 (* sign extension is two's complement: an n-bit pattern x reads as x below 2^(n-1), else x - 2^n *)
 Theorem signExtend_twos : forall x n, 1 <= n -> 0 <= x < 2 ^ n ->
